@@ -53,6 +53,16 @@ fn check_node(e: &Element<String>, r: &RNode, ancestors: &mut Vec<String>, w: &m
             return Err(format!("PascalCase form `{}` of element `{}` starts with a lowercase letter", own, e.name));
         }
     }
+    if own.chars().any(|c| !c.is_alphanumeric()) {
+        return Err(format!("PascalCase form `{}` of element `{}` contains a separator", own, e.name));
+    }
+    // a single word written in capitals (no separators, no lowercase letter, three or more cased letters) is not
+    // PascalCase under any convention if it is left all capitals (two-letter acronyms are tolerated)
+    let single_caps_word = e.name.chars().all(|c| c.is_alphanumeric()) && !e.name.chars().any(|c| c.is_lowercase());
+    let cased: Vec<char> = own.chars().filter(|c| c.is_uppercase() || c.is_lowercase()).collect();
+    if single_caps_word && cased.len() >= 3 && cased.iter().all(|c| c.is_uppercase()) {
+        return Err(format!("`{}` (element `{}`) is all capitals, not a PascalCase form", own, e.name));
+    }
     let name = &r.struct_name;
     // find j such that name == P(e_{k-j}) .. P(e_k) + digits
     let mut found: Option<usize> = None;
@@ -193,7 +203,7 @@ impl Property for C14 {
     }
     fn assumptions(&self) -> Vec<String> {
         vec![
-            "PascalCase form = Element::formatted_name() (convert_string), sanity-checked to keep exactly the name's letters and digits and to start upper/uncased".into(),
+            "PascalCase form = Element::formatted_name() (convert_string), sanity-checked structurally: exactly the name's letters and digits, no separators, first character upper/uncased, a single all-capitals word of three or more cased letters must not stay all capitals (two-letter acronyms and multi-word names such as a.b.c -> ABC are fine)".into(),
             "names avoid code points whose case mapping changes length".into(),
             "a disambiguating suffix is a run of ASCII digits and underscores".into(),
         ]
